@@ -169,7 +169,8 @@ reg(Check("C07", "model_checking",
           text=XS_NOTE, note="trusted: memdb store contract, instrumenter/scheduler",
           technique="explicit-state model checking over the real handlers (BFS by replay, step oracle)",
           engine="E2 xstate", claimed=True,
-          parts=[Part("acl", SRV, "^TestVerifC07Acl$", instr=True, gomaxprocs=16, deadline=(300, 2400))]))
+          parts=[Part("acl", SRV, "^TestVerifC07Acl$", instr=True, gomaxprocs=16, deadline=(300, 2400)),
+                 Part("p2p", SRV, "^TestVerifC07P2P$", instr=True, gomaxprocs=16, deadline=(300, 2400))]))
 
 reg(Check("C19", "exploration",
           "query parser: every string of length <=6 (quick) / <=7 (thorough) over {a,b,1,@,space,tab,comma,quote,colon,e-acute} x "
@@ -196,7 +197,8 @@ reg(Check("C08", "model_checking",
           parts=[Part("acl-direct", SRV, "^TestVerifC08Acl$", instr=True, gomaxprocs=16, deadline=(300, 2400)),
                  Part("acl-fault", SRV, "^TestVerifC08AclFault$", instr=True, gomaxprocs=16, deadline=(300, 2400)),
                  Part("msg", SRV, "^TestVerifC08Msg$", instr=True, gomaxprocs=16, deadline=(400, 3000)),
-                 Part("msg-fault", SRV, "^TestVerifC08MsgFault$", instr=True, gomaxprocs=16, deadline=(400, 3000))]))
+                 Part("msg-fault", SRV, "^TestVerifC08MsgFault$", instr=True, gomaxprocs=16, deadline=(400, 3000)),
+                 Part("p2p", SRV, "^TestVerifC08P2P$", instr=True, gomaxprocs=16, deadline=(300, 2400))]))
 
 reg(Check("C13", "model_checking",
           "(being extended) every request of the acl alphabet answered, also when any single store call fails",
@@ -219,4 +221,5 @@ for _cid, _what in [("C03", "publish decision = attached AND W in want&given; a 
               technique="explicit-state model checking over the real handlers against a reference model (BFS by replay)",
               engine="E2 xstate", claimed=False,
               parts=[Part("msg", SRV, "^TestVerif%sMsg$" % _cid, instr=True, gomaxprocs=16, deadline=(400, 3000))] +
+                    ([Part("p2p", SRV, "^TestVerif%sP2P$" % _cid, instr=True, gomaxprocs=16, deadline=(300, 2400))] if _cid in ("C03", "C09") else []) +
                     ([Part("ranges", TYPES, "^TestVerifC04Ranges$", shards=(16, 16))] if _cid == "C04" else [])))
